@@ -383,40 +383,40 @@ func c17LiveSaves(r *hx.Run, bin string, k int) {
 	cfgs := []*config.PikeConfig{mk("a", false), mk("a", true), mk("b", false)}
 	for _, c := range cfgs {
 		if err := c.Validate(); err != nil {
-			r.Inconclusive("live-save configuration not accepted: " + err.Error())
+			r.InconclusiveCase("live-save configuration not accepted: " + err.Error())
 			return
 		}
 	}
 	p, err := hx.NewPike(bin, filepath.Join(r.Scratch, fmt.Sprintf("c17-live-%d", k)), cfgs[0], 0)
 	if err != nil {
-		r.Inconclusive("cannot prepare pike")
+		r.InconclusiveCase("cannot prepare pike")
 		return
 	}
 	defer p.Kill()
 	if _, err := p.Start([]string{addr}, 30*time.Second); err != nil {
-		r.Inconclusive("pike does not start: " + err.Error())
+		r.InconclusiveCase("pike does not start: " + err.Error())
 		return
 	}
 	lp := &c16Proc{pike: p}
 	pad := 0
 	begun := p.CountEvent("update.begin")
 	if err := lp.save(cfgs[1], "inplace_write", &pad); err != nil {
-		r.Inconclusive("cannot write the configuration: " + err.Error())
+		r.InconclusiveCase("cannot write the configuration: " + err.Error())
 		return
 	}
 	if !hx.WaitUntil(10*time.Second, func() bool { return p.CountEvent("update.begin") > begun }) {
-		r.Inconclusive("the save did not start an update")
+		r.InconclusiveCase("the save did not start an update")
 		return
 	}
 	time.Sleep(time.Duration(150+100*(k%3)) * time.Millisecond)
 	overlapped := p.CountEvent("update.done") < p.CountEvent("update.begin")
 	before := p.CountEvent("update.done")
 	if err := lp.save(cfgs[2], "inplace_write", &pad); err != nil {
-		r.Inconclusive("cannot write the configuration: " + err.Error())
+		r.InconclusiveCase("cannot write the configuration: " + err.Error())
 		return
 	}
 	if err := lp.waitApplied(before, "inplace_write"); err != nil {
-		r.Inconclusive(err.Error())
+		r.InconclusiveCase(err.Error())
 		return
 	}
 	time.Sleep(300 * time.Millisecond)
@@ -451,7 +451,7 @@ func c17Applied(r *hx.Run, bin string, i int, rnd *rand.Rand) {
 	dir := filepath.Join(r.Scratch, fmt.Sprintf("c17-%d", i))
 	p, err := hx.NewPike(bin, dir, cfg, 0)
 	if err != nil {
-		r.Inconclusive("cannot prepare pike")
+		r.InconclusiveCase("cannot prepare pike")
 		return
 	}
 	defer p.Kill()
